@@ -59,7 +59,7 @@ to every time (−1 included), and because a generation that raised left value a
 untouched.  The state of the generator's random stream (`g.rng`) does not enter: a
 time-dependent generator re-seeds it from `(name, seed, t)` before every draw. -/
 theorem read_value_fn (env : Env H S V) (w : World S V) (tg : Target) (p gi : Nat) (g : Gen S V)
-    (f : Int → V) (pt : PType) (hinv : Inv env w)
+    (f : TimeV → V) (pt : PType) (hinv : Inv env w)
     (hr : resolve w tg p = some (.gen gi)) (hg : w.gens[gi]? = some g) (hk : g.kind.timeFn env = some f)
     (hp : w.ptypes[p]? = some pt) (hnf : g.failsNow = none) :
     (runOp env (.read tg p) w).1 = .ok (.val (some (f w.clock.time))) := by
@@ -139,7 +139,7 @@ def witnessWorld : World Nat Nat :=
   { dynTD := true, clock := Clock.init, gens := [Gen.fresh (.td "g" 0)], ptypes := [.dynamic],
     defaults := [.gen 0], insts := [] }
 def witnessEnv : Env Int Nat Nat :=
-  { hash := fun _ s t => s + t, reseed := fun h => h.toNat + 7, next := fun st => (2 * st + 1, st + 1), init := fun k => k }
+  { hash := fun _ s t => s + t.num + t.den, reseed := fun h => h.toNat + 7, next := fun st => (2 * st + 1, st + 1), init := fun k => k }
 
 example : (runOp witnessEnv (.read .cls 0) (runOps witnessEnv [.setTime (-1)] witnessWorld).2).1
     = .ok (.val (some (witnessEnv.tdVal "g" 0 (-1)))) := by
@@ -259,20 +259,27 @@ theorem inspections_are_transparent (env : Env H S V) (ops : List Op) (w : World
 
 /-! ## Time contexts -/
 
+def exWorldT : World Nat Nat :=
+  { dynTD := true, clock := Clock.init, gens := [], ptypes := [], defaults := [], insts := [] }
+def exEnvT : Env Nat Nat Nat := { hash := fun _ _ _ => 0, reseed := id, next := fun st => (st, st), init := id }
+
 /-- **The context stack is balanced over every history** (nested contexts, exceptions anywhere). -/
 theorem clock_stack_balanced (env : Env H S V) (ops : List Op) (w : World S V) :
     (runOps env ops w).2.clock.pushed = w.clock.pushed :=
   (runOps_pushed env ops w).1
 
 /-- **Entering and leaving a time context restores the time exactly** — time, timestep, until and
-the stack of saved states — for every body (nested contexts, time jumps, reads, push/pop…) and
-every way of leaving it: normally, by `StopIteration` (swallowed), or by any other exception
-(propagated after the restore). -/
+the stack of saved states — for every body (nested contexts, time jumps, reads, push/pop, a switch
+of the time type…) and every way of leaving it: normally, by `StopIteration` (swallowed), or by any
+other exception (propagated after the restore).  The saved time comes back as it was saved, not
+converted by whatever `time_type` is in force at the exit; `time_type` itself is not part of the
+saved state and stays as the block left it. -/
 theorem time_context_restores_exactly (env : Env H S V) (body : List Op) (w : World S V) :
     (runOp env (.ctx body) w).2.clock.time = w.clock.time ∧
     (runOp env (.ctx body) w).2.clock.timestep = w.clock.timestep ∧
     (runOp env (.ctx body) w).2.clock.untl = w.clock.untl ∧
     (runOp env (.ctx body) w).2.clock.pushed = w.clock.pushed ∧
+    (runOp env (.ctx body) w).2.clock.timeType = (runOps env body { w with clock := w.clock.enter }).2.clock.timeType ∧
     (runOp env (.ctx body) w).1 =
       (match (runOps env body { w with clock := w.clock.enter }).1 with
        | .raised .stopIteration => .ok .unit
@@ -284,7 +291,16 @@ theorem time_context_restores_exactly (env : Env H S V) (body : List Op) (w : Wo
   have hc := exitCtx_clock _ _ _ _ _ hp
   simp only [runOp]
   rw [hc.1, hc.2]
-  exact ⟨rfl, rfl, rfl, rfl, rfl⟩
+  exact ⟨rfl, rfl, rfl, rfl, rfl, rfl⟩
+
+/-- rational time 5/2; inside the context the time type is switched to `int` (time 7), then advanced:
+after the context the time is 5/2 again (and the time type is `int`) -/
+example :
+    let w : World Nat Nat := { exWorldT with clock := { Clock.init with time := mkRat 5 2, timeType := .frac } }
+    (runOp exEnvT (.ctx [.setTimeType 7 .int, .advance (mkRat 7 2)]) w).2.clock.time = mkRat 5 2 ∧
+    (runOp exEnvT (.ctx [.setTimeType 7 .int, .advance (mkRat 7 2)]) w).2.clock.timeType = .int ∧
+    (runOps exEnvT [.setTimeType 7 .int, .advance (mkRat 7 2)] w).2.clock.time = 10 := by
+  decide +kernel
 
 /-! ## State push / pop -/
 
@@ -308,9 +324,9 @@ theorem state_pop_restores_cache (env : Env H S V) (w : World S V) (i : Nat) (bo
   have hgs2 : instGens w2 i = some gs := by
     rw [instGens_shape hsh]
     simpa [instGens, resolve] using hgs
-  let c : Nat → Option V × Option Int := fun x => match w.gens[x]? with
+  let c : Nat → Option V × Option TimeV := fun x => match w.gens[x]? with
     | some y => (y.last, y.lastTime) | none => (none, none)
-  let s : Nat → List (Option V × Option Int) := fun x => match w.gens[x]? with
+  let s : Nat → List (Option V × Option TimeV) := fun x => match w.gens[x]? with
     | some y => y.saved | none => []
   have hsaved : ∀ x y, w2.gens[x]? = some y → ∃ y0, w.gens[x]? = some y0 ∧
       y.saved = List.replicate (gs.count x) (y0.last, y0.lastTime) ++ y0.saved := by
@@ -349,7 +365,7 @@ def exWorld : World Nat Nat :=
     gens := [Gen.fresh (.td "g" 3), Gen.fresh (.stream 0)], ptypes := [.number, .dynamic],
     defaults := [.gen 0, .gen 1], insts := [] }
 def exEnv : Env Nat Nat Nat :=
-  { hash := fun _ s t => (s + t).toNat, reseed := fun h => 2 * h + 1, next := fun st => (3 * st, st + 1), init := fun k => k }
+  { hash := fun _ s t => (s + t.num).toNat + t.den, reseed := fun h => 2 * h + 1, next := fun st => (3 * st, st + 1), init := fun k => k }
 
 example : Inv exEnv exWorld :=
   inv_fresh _ _ rfl (by intro g hg; simp [exWorld] at hg; rcases hg with h | h <;> exact ⟨_, h⟩)
